@@ -672,7 +672,9 @@ Definition at_end_flag (v : Z) (b : bytes) : res (bool * bytes) :=
 Definition check_end_lt6 {A} (v : Z) (x : A) (b : bytes) : res A :=
   if (v <? 6) && negb (match b with [] => true | _ => false end) then Err EDecode else Ok x.
 
-Definition accept (v : Z) (rt : option Z) (resptype : Z) (payload : bytes) : res cval :=
+(* _make_request before the fix "report malformed SFTP replies ... as SFTPBadMessage": a reply body that
+   cannot be decoded leaked packet.PacketDecodeError to the caller (kept as a refutation record) *)
+Definition accept_old (v : Z) (rt : option Z) (resptype : Z) (payload : bytes) : res cval :=
   if negb ((resptype =? FXP_STATUS) || match rt with Some t => resptype =? t | None => false end)
   then Err (ESftp FX_BAD_MESSAGE)
   else if resptype =? FXP_STATUS then
@@ -693,6 +695,14 @@ Definition accept (v : Z) (rt : option Z) (resptype : Z) (payload : bytes) : res
   else if resptype =? FXP_ATTRS then
     let* (a, b) := attrs_decode v payload in check_end_lt6 v (VAttrs a) b
   else Ok (VExt payload).
+
+(* _make_request: the reply handler runs inside try/except PacketDecodeError -> SFTPBadMessage, so a reply
+   of a legal type whose body cannot be decoded is reported to its caller as the SFTP error BAD_MESSAGE *)
+Definition accept (v : Z) (rt : option Z) (resptype : Z) (payload : bytes) : res cval :=
+  match accept_old v rt resptype payload with
+  | Err EDecode => Err (ESftp FX_BAD_MESSAGE)
+  | r => r
+  end.
 
 (* ------------------------------------------------------------------------------------------ *)
 (* 8. server: one reply per request (SFTPServerHandler._process_packet)                         *)
@@ -852,7 +862,9 @@ Definition handler_sem (v : Z) (s : sstate) (k : hkey) (xs : list fval) : houtco
         if mem_bytes (first_str xs) (s_files s) && (nth_int xs 2 <=? 0) then HRaise s (ESftp FX_EOF)
         else need_file (first_str xs)
       else if zlist_eqb n EXT_COPY_DATA then
-        if mem_bytes (nth_str xs 0) (s_files s) && mem_bytes (nth_str xs 3) (s_files s) then HBackend s
+        if mem_bytes (nth_str xs 0) (s_files s) && mem_bytes (nth_str xs 3) (s_files s) then
+          (* source and destination are the same open file: refused (SFTPFailure) before any I/O *)
+          if zlist_eqb (nth_str xs 0) (nth_str xs 3) then HRaise s (ESftp FX_FAILURE) else HBackend s
         else HRaise s (ESftp FX_INVALID_HANDLE)
       else if zlist_eqb n EXT_LIMITS then HReply s RValue
       else HBackend s
